@@ -133,8 +133,10 @@ Qed.
 (* ---- the attribute list as a trace: a family that does not depend on the write-back ---- *)
 Section Trace.
   Context {S B : Type} (proj : cursor -> S) (sstep : S -> obs -> obs -> S * B) (f : attr -> B).
+  Variable Inv : cursor -> Z -> Prop.
   Hypothesis f_clear : forall a, f (mkAttr (a_line a) (a_mandatory a) (a_grapheme a) false) = f a.
-  Hypothesis step_proj : forall cr i r next,
+  Hypothesis inv_step : forall cr i r next, 0 <= i -> Inv cr i -> Inv (fst (fst (step cr i r next))) (i + 1).
+  Hypothesis step_proj : forall cr i r next, 0 <= i -> Inv cr i ->
       proj (fst (fst (step cr i r next))) = fst (sstep (proj cr) r next)
       /\ f (snd (fst (step cr i r next))) = snd (sstep (proj cr) r next).
 
@@ -147,10 +149,11 @@ Section Trace.
     end.
 
   Lemma loop_trace : forall rest cr i done attrs,
+    0 <= i -> Inv cr i ->
     loop cr i rest done = Ok attrs -> map f attrs = map f done ++ srun (proj cr) rest.
   Proof.
-    induction rest as [|r rest IH]; intros cr i done attrs.
-    - cbn [loop srun]. pose proof (step_proj cr i obs_psep obs_nul) as (_ & Hf).
+    induction rest as [|r rest IH]; intros cr i done attrs Hi HI.
+    - cbn [loop srun]. pose proof (step_proj cr i obs_psep obs_nul Hi HI) as (_ & Hf).
       destruct (step cr i obs_psep obs_nul) as [[cr' a] rm]. cbn [fst snd] in Hf.
       destruct rm as [k|].
       + destruct (_ || _); [discriminate|]. intros H; inversion H; subst.
@@ -158,12 +161,13 @@ Section Trace.
       + intros H; inversion H; subst. rewrite map_app. cbn. rewrite Hf. reflexivity.
     - cbn [loop srun].
       set (next := match rest with [] => obs_psep | n :: _ => n end).
-      pose proof (step_proj cr i r next) as (Hp & Hf).
-      destruct (step cr i r next) as [[cr' a] rm]. cbn [fst snd] in Hp, Hf.
+      pose proof (step_proj cr i r next Hi HI) as (Hp & Hf).
+      pose proof (inv_step cr i r next Hi HI) as HI'.
+      destruct (step cr i r next) as [[cr' a] rm]. cbn [fst snd] in Hp, Hf, HI'.
       destruct rm as [k|].
-      + destruct (_ || _); [discriminate|]. intros H. apply IH in H.
+      + destruct (_ || _); [discriminate|]. intros H. apply IH in H; [|lia|exact HI'].
         rewrite H, map_app, (clear_word_map f f_clear), Hp, <- app_assoc. cbn. rewrite Hf. reflexivity.
-      + intros H. apply IH in H.
+      + intros H. apply IH in H; [|lia|exact HI'].
         rewrite H, map_app, Hp, <- app_assoc. cbn. rewrite Hf. reflexivity.
   Qed.
 End Trace.
